@@ -49,9 +49,9 @@ def recipes(draw, dims=(2, 3), single_group=False, coarse=False):
     if dim == 1:
         return draw(gm.recipes1d())
     if dim == 2:
-        r = draw(gm.recipes2d(affine_ok=False, hmin=6 if coarse else 4, hmax=12 if coarse else 9))
+        r = draw(gm.recipes2d(affine_ok=False, hmin=6 if coarse else 4, hmax=12 if coarse else 9, bend_ok=True))
     else:
-        r = draw(gm.recipes3d(types=T3D_CHEAP, affine_ok=False))
+        r = draw(gm.recipes3d(types=T3D_CHEAP, affine_ok=False, bend_ok=True))
     return _single_group(draw, r) if single_group else r
 
 
